@@ -155,11 +155,16 @@ class History(object):
         names = [a.name for a in shx.atoms.all_atoms if not a.qpeak][:2]
         arg = self.rng.choice(['', ' '.join(names)])
         upos = shx.unit.index
-        shx.insert_anis(arg) if arg else shx.insert_anis()
-        toks = ['ANIS'] + arg.split()
+        resi = self.rng.choice(['', '', 'TOL', '*', '2'])
+        if resi:
+            # the documented second parameter: ANIS_TOL, ANIS_* or ANIS_2, with or without atom names
+            shx.insert_anis(arg, residue=resi) if arg else shx.insert_anis(residue=resi)
+        else:
+            shx.insert_anis(arg) if arg else shx.insert_anis()
+        toks = ['ANIS' + ('_' + resi if resi else '')] + arg.split()
         self.mops.append(('ins', upos + 1, [shx._reslist[upos + 1]], True))
         self.ents.insert(i + 1, Entry(' '.join(toks), [toks], False, 'inserted', False))
-        self.log.append(('insert_anis', arg))
+        self.log.append(('insert_anis', arg, resi))
         return True
 
     def _atom(self, absorbed_ok=False):
